@@ -43,6 +43,7 @@ type FuncInfo struct {
 	pc      *PkgContracts
 	pkg     *packages.Package
 	decl    *ast.FuncDecl   // nil for interface methods
+	lit     *ast.FuncLit    // contracts on function literals (Name$k)
 	fn      *ssa.Function   // nil for interface methods
 	obj     *types.Func
 	sig     *types.Signature
@@ -117,6 +118,23 @@ func verif_sameArray[T any](a, b []T) bool {
 	return cap(a) > 0 && cap(b) > 0 && &a[:1][0] == &b[:1][0]
 }
 func verif_unfold[T any](x T) bool { return true }
+
+func verif_callPanicked[F any](f F) bool { return false }
+func verif_callReturned[F any](f F) bool { return false }
+func verif_callResult[R any](f func() R) R { var r R; return r }
+
+type verifBytes struct{ verifBytesID int }
+
+func verif_bytesOf(s []byte) verifBytes { panic("verif: spec only") }
+func verif_bytesOfStr(s string) verifBytes { panic("verif: spec only") }
+func verif_bcat(a, b verifBytes) verifBytes { panic("verif: spec only") }
+func verif_bxor(a, b verifBytes) verifBytes { panic("verif: spec only") }
+func verif_btake(a verifBytes, n int) verifBytes { panic("verif: spec only") }
+func verif_blen(a verifBytes) int { panic("verif: spec only") }
+func verif_bat(a verifBytes, i int) byte { panic("verif: spec only") }
+func verif_sha1of(a verifBytes) verifBytes { panic("verif: spec only") }
+func verif_unhex(a verifBytes) verifBytes { panic("verif: spec only") }
+func verif_hexok(a verifBytes) bool { panic("verif: spec only") }
 func verif_mark0(k int) {}
 func verif_mark1[A any](k int, a A) {}
 func verif_mark2[A, B any](k int, a A, b B) {}
@@ -373,7 +391,7 @@ func buildOverlay(pcs []*PkgContracts) (map[string][]byte, error) {
 					continue
 				}
 				for _, fc := range pc.Funcs {
-					if !declMatches(fd, fc) {
+					if !declMatches(fd, fc) || fc.Anon > 0 {
 						continue
 					}
 					locals := localNames(fd)
@@ -582,6 +600,32 @@ func (P *Program) resolve(fi *FuncInfo) error {
 			return fmt.Errorf("no SSA for %s", fc.Key)
 		}
 		fi.loops = collectLoops(fi.decl)
+		if fc.Anon > 0 {
+			// the k-th function literal directly inside the declaration (not nested in another literal)
+			var lits []*ast.FuncLit
+			var walk func(n ast.Node)
+			walk = func(n ast.Node) {
+				ast.Inspect(n, func(c ast.Node) bool {
+					if l, ok := c.(*ast.FuncLit); ok {
+						lits = append(lits, l)
+						return false
+					}
+					return true
+				})
+			}
+			walk(fi.decl.Body)
+			if fc.Anon > len(lits) || fc.Anon > len(fi.fn.AnonFuncs) {
+				return fmt.Errorf("%s has no function literal %d", fc.Name, fc.Anon)
+			}
+			fi.lit = lits[fc.Anon-1]
+			fi.fn = fi.fn.AnonFuncs[fc.Anon-1]
+			if fi.fn.Pos() != fi.lit.Type.Func {
+				return fmt.Errorf("%s: function literal %d does not line up with go/ssa's numbering", fc.Name, fc.Anon)
+			}
+			fi.sig = fi.fn.Signature
+			fi.obj = nil
+			fi.loops = nil
+		}
 		if r := fi.sig.Recv(); r != nil {
 			n := r.Name()
 			if n == "" || n == "_" {
@@ -646,7 +690,9 @@ func (P *Program) checkClause(fi *FuncInfo, cl *Clause) (*CheckedExpr, error) {
 	src := cl.Go
 	pos := token.NoPos
 	wrapParams := []string{}
-	if fi.decl != nil {
+	if fi.lit != nil {
+		pos = fi.lit.Body.Lbrace + 1
+	} else if fi.decl != nil {
 		pos = fi.decl.Body.Lbrace + 1
 		if cl.Kind == "invariant" || cl.Kind == "decreases" {
 			if cl.Loop < 1 || cl.Loop > len(fi.loops) {
